@@ -5,6 +5,7 @@
 (* uniformly (exactly one of the three holds, +N and -N are monotone), and *)
 (* -size measures in whole units, rounding up - for each of find's units.  *)
 (* The definitions repeat spec/Numeric.tla on plain integers.              *)
+(* Checked with: tlapm --threads 6 NumericLaws.tla   (SMT back end)        *)
 (***************************************************************************)
 EXTENDS Integers, TLAPS
 
@@ -15,64 +16,161 @@ Lt(n, v) == v < n
 \* the measured value of a file of b bytes in units of u bytes (Numeric!SizeMeasure, [bytes |-> b])
 Measure(b, u) == IF b = 0 THEN 0 ELSE ((b - 1) \div u) + 1
 
-UnitSizes == {1, 2, 512, 1024, 1048576, 1073741824}
-
 THEOREM Trichotomy ==
   \A n \in Nat, v \in Int :
      /\ Eq(n, v) \/ Gt(n, v) \/ Lt(n, v)
      /\ ~(Eq(n, v) /\ Gt(n, v)) /\ ~(Eq(n, v) /\ Lt(n, v)) /\ ~(Gt(n, v) /\ Lt(n, v))
-  BY DEF Eq, Gt, Lt
+  BY SMT DEF Eq, Gt, Lt
 
 THEOREM Monotone ==
   \A n \in Nat, v \in Int :
      /\ Gt(n + 1, v) => Gt(n, v)
      /\ Lt(n, v) => Lt(n + 1, v)
-  BY DEF Gt, Lt
+  BY SMT DEF Gt, Lt
 
-\* k whole units measure k; one byte more measures k + 1; one byte less still measures k (units above one byte)
-THEOREM RoundUp512 ==
-  \A k \in Nat :
-     /\ Measure(k * 512, 512) = k
-     /\ Measure(k * 512 + 1, 512) = k + 1
-     /\ (k >= 1 => Measure(k * 512 - 1, 512) = k)
-  BY DEF Measure
+THEOREM Bytes == \A b \in Nat : Measure(b, 1) = b
+  BY SMT DEF Measure
 
+\* unit of 2 bytes: k whole units measure k; one byte more measures k + 1; one byte less still measures k
 THEOREM RoundUp2 ==
   \A k \in Nat :
      /\ Measure(k * 2, 2) = k
      /\ Measure(k * 2 + 1, 2) = k + 1
      /\ (k >= 1 => Measure(k * 2 - 1, 2) = k)
-  BY DEF Measure
+<1> TAKE k \in Nat
+<1>1. Measure(k * 2, 2) = k
+  <2>1. CASE k = 0 BY <2>1, SMT DEF Measure
+  <2>2. CASE k >= 1
+    <3>1. k * 2 - 1 = (k - 1) * 2 + 1 BY <2>2, SMT
+    <3>2. ((k - 1) * 2 + 1) \div 2 = k - 1 BY <2>2, SMT
+    <3> QED BY <2>2, <3>1, <3>2, SMT DEF Measure
+  <2> QED BY <2>1, <2>2, SMT
+<1>2. Measure(k * 2 + 1, 2) = k + 1
+  <2>1. (k * 2) \div 2 = k BY SMT
+  <2> QED BY <2>1, SMT DEF Measure
+<1>3. k >= 1 => Measure(k * 2 - 1, 2) = k
+  <2> SUFFICES ASSUME k >= 1 PROVE Measure(k * 2 - 1, 2) = k OBVIOUS
+  <2>1. k * 2 - 2 = (k - 1) * 2 + 0 BY SMT
+  <2>2. ((k - 1) * 2 + 0) \div 2 = k - 1 BY SMT
+  <2>3. k * 2 - 1 # 0 BY SMT
+  <2> QED BY <2>1, <2>2, <2>3, SMT DEF Measure
+<1> QED BY <1>1, <1>2, <1>3
 
+\* unit of 512 bytes: k whole units measure k; one byte more measures k + 1; one byte less still measures k
+THEOREM RoundUp512 ==
+  \A k \in Nat :
+     /\ Measure(k * 512, 512) = k
+     /\ Measure(k * 512 + 1, 512) = k + 1
+     /\ (k >= 1 => Measure(k * 512 - 1, 512) = k)
+<1> TAKE k \in Nat
+<1>1. Measure(k * 512, 512) = k
+  <2>1. CASE k = 0 BY <2>1, SMT DEF Measure
+  <2>2. CASE k >= 1
+    <3>1. k * 512 - 1 = (k - 1) * 512 + 511 BY <2>2, SMT
+    <3>2. ((k - 1) * 512 + 511) \div 512 = k - 1 BY <2>2, SMT
+    <3> QED BY <2>2, <3>1, <3>2, SMT DEF Measure
+  <2> QED BY <2>1, <2>2, SMT
+<1>2. Measure(k * 512 + 1, 512) = k + 1
+  <2>1. (k * 512) \div 512 = k BY SMT
+  <2> QED BY <2>1, SMT DEF Measure
+<1>3. k >= 1 => Measure(k * 512 - 1, 512) = k
+  <2> SUFFICES ASSUME k >= 1 PROVE Measure(k * 512 - 1, 512) = k OBVIOUS
+  <2>1. k * 512 - 2 = (k - 1) * 512 + 510 BY SMT
+  <2>2. ((k - 1) * 512 + 510) \div 512 = k - 1 BY SMT
+  <2>3. k * 512 - 1 # 0 BY SMT
+  <2> QED BY <2>1, <2>2, <2>3, SMT DEF Measure
+<1> QED BY <1>1, <1>2, <1>3
+
+\* unit of 1024 bytes: k whole units measure k; one byte more measures k + 1; one byte less still measures k
 THEOREM RoundUp1024 ==
   \A k \in Nat :
      /\ Measure(k * 1024, 1024) = k
      /\ Measure(k * 1024 + 1, 1024) = k + 1
      /\ (k >= 1 => Measure(k * 1024 - 1, 1024) = k)
-  BY DEF Measure
+<1> TAKE k \in Nat
+<1>1. Measure(k * 1024, 1024) = k
+  <2>1. CASE k = 0 BY <2>1, SMT DEF Measure
+  <2>2. CASE k >= 1
+    <3>1. k * 1024 - 1 = (k - 1) * 1024 + 1023 BY <2>2, SMT
+    <3>2. ((k - 1) * 1024 + 1023) \div 1024 = k - 1 BY <2>2, SMT
+    <3> QED BY <2>2, <3>1, <3>2, SMT DEF Measure
+  <2> QED BY <2>1, <2>2, SMT
+<1>2. Measure(k * 1024 + 1, 1024) = k + 1
+  <2>1. (k * 1024) \div 1024 = k BY SMT
+  <2> QED BY <2>1, SMT DEF Measure
+<1>3. k >= 1 => Measure(k * 1024 - 1, 1024) = k
+  <2> SUFFICES ASSUME k >= 1 PROVE Measure(k * 1024 - 1, 1024) = k OBVIOUS
+  <2>1. k * 1024 - 2 = (k - 1) * 1024 + 1022 BY SMT
+  <2>2. ((k - 1) * 1024 + 1022) \div 1024 = k - 1 BY SMT
+  <2>3. k * 1024 - 1 # 0 BY SMT
+  <2> QED BY <2>1, <2>2, <2>3, SMT DEF Measure
+<1> QED BY <1>1, <1>2, <1>3
 
+\* unit of 1048576 bytes: k whole units measure k; one byte more measures k + 1; one byte less still measures k
 THEOREM RoundUpM ==
   \A k \in Nat :
      /\ Measure(k * 1048576, 1048576) = k
      /\ Measure(k * 1048576 + 1, 1048576) = k + 1
      /\ (k >= 1 => Measure(k * 1048576 - 1, 1048576) = k)
-  BY DEF Measure
+<1> TAKE k \in Nat
+<1>1. Measure(k * 1048576, 1048576) = k
+  <2>1. CASE k = 0 BY <2>1, SMT DEF Measure
+  <2>2. CASE k >= 1
+    <3>1. k * 1048576 - 1 = (k - 1) * 1048576 + 1048575 BY <2>2, SMT
+    <3>2. ((k - 1) * 1048576 + 1048575) \div 1048576 = k - 1 BY <2>2, SMT
+    <3> QED BY <2>2, <3>1, <3>2, SMT DEF Measure
+  <2> QED BY <2>1, <2>2, SMT
+<1>2. Measure(k * 1048576 + 1, 1048576) = k + 1
+  <2>1. (k * 1048576) \div 1048576 = k BY SMT
+  <2> QED BY <2>1, SMT DEF Measure
+<1>3. k >= 1 => Measure(k * 1048576 - 1, 1048576) = k
+  <2> SUFFICES ASSUME k >= 1 PROVE Measure(k * 1048576 - 1, 1048576) = k OBVIOUS
+  <2>1. k * 1048576 - 2 = (k - 1) * 1048576 + 1048574 BY SMT
+  <2>2. ((k - 1) * 1048576 + 1048574) \div 1048576 = k - 1 BY SMT
+  <2>3. k * 1048576 - 1 # 0 BY SMT
+  <2> QED BY <2>1, <2>2, <2>3, SMT DEF Measure
+<1> QED BY <1>1, <1>2, <1>3
 
+\* unit of 1073741824 bytes: k whole units measure k; one byte more measures k + 1; one byte less still measures k
 THEOREM RoundUpG ==
   \A k \in Nat :
      /\ Measure(k * 1073741824, 1073741824) = k
      /\ Measure(k * 1073741824 + 1, 1073741824) = k + 1
      /\ (k >= 1 => Measure(k * 1073741824 - 1, 1073741824) = k)
-  BY DEF Measure
-
-THEOREM Bytes == \A b \in Nat : Measure(b, 1) = b
-  BY DEF Measure
+<1> TAKE k \in Nat
+<1>1. Measure(k * 1073741824, 1073741824) = k
+  <2>1. CASE k = 0 BY <2>1, SMT DEF Measure
+  <2>2. CASE k >= 1
+    <3>1. k * 1073741824 - 1 = (k - 1) * 1073741824 + 1073741823 BY <2>2, SMT
+    <3>2. ((k - 1) * 1073741824 + 1073741823) \div 1073741824 = k - 1 BY <2>2, SMT
+    <3> QED BY <2>2, <3>1, <3>2, SMT DEF Measure
+  <2> QED BY <2>1, <2>2, SMT
+<1>2. Measure(k * 1073741824 + 1, 1073741824) = k + 1
+  <2>1. (k * 1073741824) \div 1073741824 = k BY SMT
+  <2> QED BY <2>1, SMT DEF Measure
+<1>3. k >= 1 => Measure(k * 1073741824 - 1, 1073741824) = k
+  <2> SUFFICES ASSUME k >= 1 PROVE Measure(k * 1073741824 - 1, 1073741824) = k OBVIOUS
+  <2>1. k * 1073741824 - 2 = (k - 1) * 1073741824 + 1073741822 BY SMT
+  <2>2. ((k - 1) * 1073741824 + 1073741822) \div 1073741824 = k - 1 BY SMT
+  <2>3. k * 1073741824 - 1 # 0 BY SMT
+  <2> QED BY <2>1, <2>2, <2>3, SMT DEF Measure
+<1> QED BY <1>1, <1>2, <1>3
 
 \* "-size -1<unit> matches only empty files" and "-size 1M matches sizes 1 .. 2^20"
 THEOREM EmptyOnly ==
   \A b \in Nat : (Lt(1, Measure(b, 1024)) <=> b = 0) /\ (Lt(1, Measure(b, 512)) <=> b = 0) /\ (Lt(1, Measure(b, 1048576)) <=> b = 0)
-  BY DEF Measure, Lt
+<1> TAKE b \in Nat
+<1>1. CASE b = 0 BY <1>1, SMT DEF Measure, Lt
+<1>2. CASE b >= 1
+  <2>1. (b - 1) \div 1024 >= 0 /\ (b - 1) \div 512 >= 0 /\ (b - 1) \div 1048576 >= 0 BY <1>2, SMT
+  <2> QED BY <1>2, <2>1, SMT DEF Measure, Lt
+<1> QED BY <1>1, <1>2, SMT
 
 THEOREM OneMeg == \A b \in Nat : Eq(1, Measure(b, 1048576)) <=> (1 <= b /\ b <= 1048576)
-  BY DEF Measure, Eq
+<1> TAKE b \in Nat
+<1>1. CASE b = 0 BY <1>1, SMT DEF Measure, Eq
+<1>2. CASE b >= 1
+  <2>1. ((b - 1) \div 1048576 = 0) <=> (b - 1 < 1048576) BY <1>2, SMT
+  <2> QED BY <1>2, <2>1, SMT DEF Measure, Eq
+<1> QED BY <1>1, <1>2, SMT
 =============================================================================
